@@ -382,7 +382,20 @@ func c01bBody(r *simcore.Run) {
 		switch w := r.Intn(10); {
 		case w < 2: // plain write
 			v := fmt.Sprintf("v%d", i)
-			hdr, err := c.Set(ctx, []byte(k), []byte(v))
+			kvs := []*schema.KeyValue{{Key: []byte(k), Value: []byte(v)}}
+			if r.Pct(40) {
+				// a second entry whose metadata combines attributes (covered by the entries digest
+				// that VerifiedTxByID rebuilds from the response): expirable and/or not indexable
+				md := &schema.KVMetadata{}
+				if m := r.Intn(3); m != 1 {
+					md.Expiration = &schema.Expiration{ExpiresAt: time.Now().Add(1000 * time.Hour).Unix()}
+				}
+				if md.Expiration == nil || r.Bool() {
+					md.NonIndexable = true
+				}
+				kvs = append(kvs, &schema.KeyValue{Key: []byte(fmt.Sprintf("aux%d", i)), Value: []byte("x"), Metadata: md})
+			}
+			hdr, err := c.SetAll(ctx, &schema.SetRequest{KVs: kvs})
 			if err != nil {
 				r.Violation("write", "", "Set failed: %v", err)
 			}
